@@ -50,7 +50,8 @@ package dns
 //@   ensures len(b) == 2 ==> ret0 == nil && e.Timeout == b[0]*256 + b[1]
 //@   ensures len(b) == 0 ==> ret0 == nil
 //@   ensures len(b) != 0 && len(b) != 2 ==> ret0 != nil
-//@   ensures canon: ret0 == nil ==> (e.Timeout == 0 ? 0 : 2) == len(b)
+// (decoding into a fresh option, as unpackDataOpt does)
+//@   ensures canon: ret0 == nil && old(e.Timeout) == 0 ==> (e.Timeout == 0 ? 0 : 2) == len(b)
 
 // EDE: INFO-CODE(2) EXTRA-TEXT
 //@ func (*EDNS0_EDE).pack [C01]
